@@ -273,6 +273,34 @@ fn has_error_leaf(e: &Expr) -> bool {
     }
 }
 
+/// A ruleset evaluated as a whole: the invocation history (in order) and every outcome equal the reference's.
+pub fn check_across_rules(case: &super::setcommon::SetCase) -> Verdict {
+    let built = crate::probe::build(&case.spec, false);
+    let mut counts = BTreeMap::new();
+    for (round, facts) in case.inputs.iter().enumerate() {
+        let (model, model_log) = super::setcommon::model_evaluation(&case.spec, facts, &mut counts);
+        built.log.lock().unwrap().clear();
+        let out = catch(|| block_on(built.ruleset.evaluate_value(facts)).expect("evaluate_value").into_iter().map(|o| o.value).collect::<Vec<_>>())
+            .map_err(|p| Issue::new("lazy:across-rules:panic", format!("evaluate_value panicked: {p}; {}", case.render())))?;
+        let log = built.log.lock().unwrap().clone();
+        if log != model_log {
+            return Err(Issue::new(
+                "lazy:across-rules:call-log",
+                format!("evaluation #{}: invocation history {:?}, reference (every reached call is made, in rule order) {:?}; {}", round + 1, log, model_log, case.render()),
+            ));
+        }
+        for (i, (v, m)) in out.iter().zip(model.iter()).enumerate() {
+            if let Some(d) = compare(v, m) {
+                return Err(Issue::new(
+                    "lazy:across-rules:result",
+                    format!("evaluation #{}, rule {i}: {} but reference {} ({d:?}); {}", round + 1, me::show_actual(v), me::show_model(m), case.render()),
+                ));
+            }
+        }
+    }
+    Ok(())
+}
+
 pub fn check(case: &EvalCase) -> Verdict {
     let o = observe(case);
     let r = match &o.actual {
@@ -578,6 +606,58 @@ pub fn run(ctx: &Ctx) {
     super::regressions::run(ctx, "C05", |j| EvalCase::from_json(j).map(|c| check(&c)));
 
     let fam = family();
+    // calls that are reached again in a later rule of the same evaluation after they failed: a call that is reached is
+    // made (a cacheable function once per argument it *answered*; a function that refused is asked again; a
+    // non-cacheable one every time), in the order of the rules
+    let across: Vec<super::setcommon::SetCase> = {
+        let mut out = vec![];
+        for cacheable in [false, true] {
+            for fail_first in [0u32, 1, 2] {
+                for failing_arg in [false, true] {
+                    let mut fns = BTreeMap::new();
+                    fns.insert("fa".to_string(), FnSpec { cacheable, fail_on: if failing_arg { vec![me::arg_key(&Value::Bool(true))] } else { vec![] }, fail_first, uncacheable_after: 0 });
+                    fns.insert("fb".to_string(), FnSpec { cacheable: !cacheable, fail_on: vec![me::arg_key(&Value::Int(3))], fail_first: 0, uncacheable_after: 0 });
+                    let call = |f: &str, v: Value| Expr::func(f, Expr::Value(v));
+                    let rules: Vec<(String, Expr)> = vec![
+                        ("r0".into(), call("fa", Value::Bool(true))),
+                        ("r1".into(), Expr::Vec(vec![call("fa", Value::Bool(true)), call("fb", Value::Int(3)), call("fa", Value::Int(5))])),
+                        ("r2".into(), Expr::Vec(vec![call("fb", Value::Int(3))])),
+                        ("r3".into(), Expr::iif(call("fa", Value::Bool(true)), call("fa", Value::Int(5)), call("fb", Value::Int(4)))),
+                        ("r4".into(), Expr::or(Expr::none(call("fb", Value::Int(3))), Expr::value(true))),
+                        ("r5".into(), call("fa", Value::Bool(true))),
+                    ];
+                    for r in 0..rules.len() {
+                        let mut rs = rules.clone();
+                        rs.rotate_left(r);
+                        out.push(super::setcommon::SetCase {
+                            spec: crate::probe::SetSpec { rules: rs, fns: fns.clone(), symbols: BTreeMap::new(), suspend: 0 },
+                            inputs: vec![Value::None, Value::None],
+                        });
+                    }
+                }
+            }
+        }
+        out
+    };
+    ctx.enumerate(
+        "failed-calls-reached-again",
+        across.len() as u64,
+        true,
+        |i, acc| {
+            acc.cell("across-rules", true);
+            if i % 17 == 0 {
+                acc.sample("across-rules", || across[i as usize].render().chars().take(300).collect());
+            }
+            check_across_rules(&across[i as usize])
+        },
+        |i| {
+            let mut j = across[i as usize].to_json();
+            j["across_rules"] = serde_json::json!(true);
+            j
+        },
+        "across-rules",
+    );
+
     ctx.enumerate(
         "lazy-family",
         fam.len() as u64,
@@ -637,5 +717,8 @@ pub fn run(ctx: &Ctx) {
 }
 
 pub fn replay(j: &serde_json::Value) -> Option<Verdict> {
+    if j.get("across_rules").is_some() {
+        return super::setcommon::SetCase::from_json(j).map(|c| check_across_rules(&c));
+    }
     EvalCase::from_json(j).map(|c| check(&c))
 }
